@@ -275,6 +275,14 @@ class SimMachine:
         except Exception:
             pass
         status, result, error = "ok", None, None
+        self.attempts = getattr(self, "attempts", 0) + 1
+        from . import simproc as _sp
+        import os as _os_mod
+        saved_getpid, saved_pid = _os_mod.getpid, _sp._PID["current"]
+        _sp._PID["current"] = 60000 + self.attempts
+        _os_mod.getpid = _sp._sim_getpid
+        hash_ctx = _sp.salted_hash(f"fs-attempt/{self.attempts}")
+        hash_ctx.__enter__()
         try:
             result = fn()
         except SimCrash:
@@ -283,6 +291,8 @@ class SimMachine:
             status = "exc"
             error = f"{type(e).__name__}: {e}"
         finally:
+            hash_ctx.__exit__()
+            _os_mod.getpid, _sp._PID["current"] = saved_getpid, saved_pid
             CTL.active = False
             if CTL.crashed and status != "crash":
                 status = "crash"  # somebody swallowed the kill; the process is dead all the same
